@@ -284,3 +284,118 @@ Print Assumptions gen_UnmarshalBinary_step.
 Theorem gen_UnmarshalBinary_done : forall (P : Type) (newbuf : list N -> list N) (newt : Z -> P) (uv : list N -> Z * Z * option string) (readfrom : P -> list N -> Z * option string) (data : list N) (K : list P -> Z -> frag (Z * list P)) (oof : frag (Z * list P)) (fuel : nat) (ps : list P) (read : Z), len data <= read -> metadata_UnmarshalBinary_loop_loop_1 P newbuf newt uv readfrom data K oof (S fuel) ps read = K ps read.
 Proof. exact GenTie_C11.UnmarshalBinary_done. Qed.
 Print Assumptions gen_UnmarshalBinary_done.
+
+(* ------------------------------------------------------------------ *)
+(* Composition C11 x C05 (x C13): metadata travels inside signed advertisements.
+   A = Model.C05_AdSignature, S = Model.C13_IpldSchema, M = Model.C11_Metadata;
+   to_c13 / of_c13 / wire_encode / wire_verify are the C05 x C13 glue (Properties_C05.v),
+   with_metadata a md = a with Metadata := M.marshal md, and
+   wire_read_metadata = typed_load_ad ; verify_gen ; M.unmarshal of the Metadata field.
+   Proofs.Compose_C05_C13.WitnessC.laws and Proofs.Compose_C11_C05.WitnessM.ex_premises show
+   the premises can be met together. *)
+From Lib Require Import SymCrypto.
+From Model Require Import Compose_C05_C13 Compose_C11_C05.
+From Proofs Require Import Compose_C05_C13 Compose_C11_C05.
+
+(* (a) put the C11 encoding of ANY well-formed protocol set into an advertisement, Sign it,
+   write it with C13's DAG-CBOR encoder; the receiver that loads the block, verifies it and
+   decodes the Metadata field gets the signer and the metadata as New arranged it (Equal to
+   it, every protocol retrievable by ID); the signature verifies with the same signer. *)
+Theorem compose_metadata_in_signed_ad :
+  forall (privkey pubkey sigt peerid : Type) (pub : privkey -> pubkey) (sign : privkey -> bytes -> sigt)
+         (verify : pubkey -> bytes -> sigt -> bool) (peer_id : pubkey -> peerid)
+         (peerid_eqb : peerid -> peerid -> bool) (Hf : bytes -> bytes) (decode_pid : bytes -> option peerid)
+         (env_encode : envelope pubkey sigt -> bytes) (env_decode : bytes -> option (envelope pubkey sigt)),
+  env_round_trip env_encode env_decode -> env_empty env_decode ->
+  sealed_env_bytes_ok privkey pubkey sigt pub sign env_encode ->
+  A.H_len32 Hf -> H_bytes Hf ->
+  (forall a b : peerid, peerid_eqb a b = true <-> a = b) -> VerifySign pub sign verify ->
+  forall (st : bool) (a a' : A.ad pubkey sigt) (k : privkey) (md : list M.proto),
+  md <> [] -> forallb M.wf_proto md = true ->
+  S.wf_ad (to_c13 env_encode (with_metadata a md)) = true ->
+  A.sign_plain pub sign (A.ideal_H Hf) (with_metadata a md) k = Ok a' ->
+  wire_read_metadata env_decode verify peer_id peerid_eqb (A.ideal_H Hf) decode_pid st (wire_encode env_encode a')
+    = Ok (peer_id (pub k), M.new md)
+  /\ wire_verify env_decode verify peer_id peerid_eqb (A.ideal_H Hf) decode_pid st (wire_encode env_encode a')
+    = Ok (peer_id (pub k))
+  /\ M.equal (M.new md) (M.new md) = true
+  /\ (forall p, In p md ->
+        exists q, M.get (M.new md) (M.id_of p) = Some q /\ M.id_of q = M.id_of p /\ In q md
+                  /\ (NoDup (map M.id_of md) -> q = p)).
+Proof. exact metadata_in_signed_ad. Qed.
+Print Assumptions compose_metadata_in_signed_ad.
+
+(* (b) the signature covers the metadata BYTES: any other byte string in the Metadata field
+   of an accepted advertisement -- other protocols, the same protocols spelled differently,
+   or nothing C11 can read -- gives a different block, and neither verification nor the
+   receiver's pipeline accepts it. *)
+Theorem compose_metadata_bytes_tamper_rejected :
+  forall (pubkey sigt peerid : Type) (verify : pubkey -> bytes -> sigt -> bool) (peer_id : pubkey -> peerid)
+         (peerid_eqb : peerid -> peerid -> bool) (Hf : bytes -> bytes) (decode_pid : bytes -> option peerid)
+         (env_encode : envelope pubkey sigt -> bytes) (env_decode : bytes -> option (envelope pubkey sigt)),
+  env_round_trip env_encode env_decode -> env_empty env_decode ->
+  (forall a b : peerid, peerid_eqb a b = true <-> a = b) -> A.H_injective Hf ->
+  forall (st st' : bool) (a : A.ad pubkey sigt) (s : peerid) (m' : bytes),
+  A.verify_gen verify peer_id peerid_eqb (A.ideal_H Hf) decode_pid st a = Ok s ->
+  m' <> A.a_md a ->
+  S.wf_ad (to_c13 env_encode a) = true -> S.wf_ad (to_c13 env_encode (set_md a m')) = true ->
+  wire_encode env_encode (set_md a m') <> wire_encode env_encode a
+  /\ is_ok (wire_verify env_decode verify peer_id peerid_eqb (A.ideal_H Hf) decode_pid st' (wire_encode env_encode (set_md a m'))) = false
+  /\ is_ok (wire_read_metadata env_decode verify peer_id peerid_eqb (A.ideal_H Hf) decode_pid st' (wire_encode env_encode (set_md a m'))) = false.
+Proof. exact metadata_bytes_tamper_rejected. Qed.
+Print Assumptions compose_metadata_bytes_tamper_rejected.
+
+(* ... and for ANY bytes on the wire that decode to the accepted advertisement with other
+   metadata bytes *)
+Theorem compose_metadata_bytes_tamper_rejected_any_wire :
+  forall (pubkey sigt peerid : Type) (verify : pubkey -> bytes -> sigt -> bool) (peer_id : pubkey -> peerid)
+         (peerid_eqb : peerid -> peerid -> bool) (Hf : bytes -> bytes) (decode_pid : bytes -> option peerid)
+         (env_decode : bytes -> option (envelope pubkey sigt)),
+  (forall a b : peerid, peerid_eqb a b = true <-> a = b) -> A.H_injective Hf ->
+  forall (st st' : bool) (a : A.ad pubkey sigt) (s : peerid) (w : bytes) (c : S.ad),
+  A.verify_gen verify peer_id peerid_eqb (A.ideal_H Hf) decode_pid st a = Ok s ->
+  S.typed_load_ad w = Ok c ->
+  of_c13 env_decode c = set_md a (S.a_meta c) -> S.a_meta c <> A.a_md a ->
+  is_ok (wire_verify env_decode verify peer_id peerid_eqb (A.ideal_H Hf) decode_pid st' w) = false
+  /\ is_ok (wire_read_metadata env_decode verify peer_id peerid_eqb (A.ideal_H Hf) decode_pid st' w) = false.
+Proof. exact metadata_bytes_tamper_rejected_any_wire. Qed.
+Print Assumptions compose_metadata_bytes_tamper_rejected_any_wire.
+
+(* Covering the bytes loses nothing against covering the decoded protocols: the decoded
+   value determines the bytes (so two byte strings C11 reads as the same metadata are the
+   same byte string; a re-spelling is a different byte string, rejected by (b)). *)
+Theorem compose_metadata_value_determines_bytes : forall (m1 m2 : bytes) (v : list M.proto),
+  wf_bytes m1 = true -> wf_bytes m2 = true ->
+  M.unmarshal m1 = Ok v -> M.unmarshal m2 = Ok v -> m1 = m2.
+Proof. exact metadata_value_determines_bytes. Qed.
+Print Assumptions compose_metadata_value_determines_bytes.
+
+(* (c) an advertisement that passes Validate carries at most MaxMetadataLen bytes of
+   metadata (generated constant), C11's decoder allocates at most proportionally to that,
+   and returns Ok or Err; the limit is the same number as C11's MaxMetadataSize. *)
+Theorem compose_validated_ad_metadata_bounded : forall c : S.ad,
+  S.validate c = true -> wf_bytes (S.a_meta c) = true ->
+  N.of_nat (length (S.a_meta c)) <= max_metadata_len
+  /\ M.unmarshal_alloc (S.a_meta c) <= 20 * max_metadata_len + (M.max_metadata_size + 20)
+  /\ ((exists m, M.unmarshal (S.a_meta c) = Ok m) \/ (exists e, M.unmarshal (S.a_meta c) = Err e /\ e <> M.EOutOfFuel)).
+Proof. exact validated_ad_metadata_bounded. Qed.
+Print Assumptions compose_validated_ad_metadata_bounded.
+
+Theorem compose_metadata_limits_agree :
+  max_metadata_len = M.max_metadata_size /\ max_metadata_len = 1024.
+Proof. exact metadata_limits_agree. Qed.
+Print Assumptions compose_metadata_limits_agree.
+
+(* ---- phase 3: ties to the Gallina regenerated from the Go source (proofs/GenTie_P3_C11.v) ---- *)
+From Coq Require Import ZArith NArith List Bool Lia String.
+From Lib Require Import Bytes Varint.
+From Model Require Import C11_Metadata.
+From Proofs Require Import GenTie_Lib C11_Metadata GenTie_C11.
+From Gen Require Import Gen_Consts Gen_Funcs_prelude Gen_Funcs_metadata.
+Import ListNotations.
+Local Open Scope Z_scope.
+From Proofs Require Import GenTie_P3_C11.
+
+Theorem gen_tie_UnmarshalBinary_whole : forall (data : list N) (oof : frag (Z * list Z)), let run := metadata_UnmarshalBinary_all Z bufid idfun uvM rdM data (S (Datatypes.length data)) [] oof in match unmarshal data with | Ok l => exists r : Z, len data <= r /\ run = FReturn "return m.Validate()" (r, map idZ l) /\ metadata_Metadata_Validate Z idfun (map idZ l) = None | Err _ => (exists (r : Z) (ps : list Z), run = FReturn "return err" (r, ps)) \/ (exists (r : Z) (l : list proto), run = FReturn "return m.Validate()" (r, map idZ l) /\ metadata_Metadata_Validate Z idfun (map idZ l) <> None) | Panic _ => False end.
+Proof. exact GenTie_P3_C11.tie_UnmarshalBinary_whole. Qed.
+Print Assumptions gen_tie_UnmarshalBinary_whole.
